@@ -17,9 +17,10 @@ Proved for all strings and all numbers (no bounds):
   (string → digits → version round trip through `Nat.toDigits`, the `python_full_version` padding included) and
   environment value texts `X'.Y'…`; plus the token-level statements for finals of any length;
 * their composition for every marker text (`parse_eval_agree_partial`).
-Stated, not proved (`leaf_agree_full_statement`): `in`/`not in` lists on the version variables (they need
-`VC.allows` on a `VersionUnion` of arbitrarily many members, i.e. totality of `_excluded_single_version`, open in
-C05).  Where the statement is FALSE of model and code: concrete witnesses (`counterexample_*`).
+`python_version in "X.Y …"` (a `VersionUnion` of ranges; C05's `union_allows_total`).
+Stated, not proved (`leaf_agree_full_statement`): `python_version not in`, `python_full_version in / not in`
+(they need `VersionUnion.of` on Version members and `VersionUnion ∩ VersionUnion` total with a sorted result, open
+in C05).  Where the statement is FALSE of model and code: concrete witnesses (`counterexample_*`).
 -/
 import PoetryVerif.Proofs.MarkerEval
 import PoetryVerif.Proofs.MarkerLeaf
@@ -27,6 +28,7 @@ import PoetryVerif.Proofs.MarkerLeafVersion
 import PoetryVerif.Proofs.MarkerLeafVersionText
 import PoetryVerif.Proofs.MarkerLeafCompat
 import PoetryVerif.Proofs.MarkerLeafString
+import PoetryVerif.Proofs.MarkerLeafVersionList
 import PoetryVerif.Proofs.VersionParse
 
 set_option linter.unusedSimpArgs false
@@ -272,6 +274,19 @@ theorem leaf_agree_reversed (E : Env) (n v ev : String) (hn : n ∈ stringVarNam
 example : ("not in", Generic.Op.nc) ∈ inOps ∧ PlainTok "nt" ∧ "sys.platform" ∈ stringVarNames :=
   ⟨by decide, plainTok_nt, by decide⟩
 
+/-- **`python_version in "X0.Y0 X1.Y1 …"`**: the list is rewritten to `X0.Y0.* || X1.Y1.* || …`, a `VersionUnion`
+of half-open ranges; on the environment value `X'.Y'` it is token equality, as the reference says (any number of
+tokens, all numbers; uses C05's `unionOfFlat_rng` and `union_allows_total`) -/
+theorem leaf_agree_python_version_in (E : Env) (p0 : Nat × Nat) (rest : List (String × (Nat × Nat)))
+    (hs : ∀ q ∈ rest, SepRun q.1) (x' y' : Nat)
+    (hev : E.get? "python_version" = some (Version.relText [x', y'])) :
+    ∃ b, itemV E "python_version" "in" (verList2 p0 rest) false = .ok b ∧
+      evalItem "python_version" "in" (verList2 p0 rest) false E = some b := by
+  obtain ⟨b, h1, h2, _⟩ := agree_pv_in E p0 rest hs x' y' hev
+  exact ⟨b, h1, h2⟩
+
+example : verList2 (3, 8) [(" ", (3, 9)), (", ", (3, 10))] = "3.8 3.9, 3.10" := by decide +kernel
+
 /-! ### the domain -/
 
 /-- the comparison operators of version variables -/
@@ -310,6 +325,10 @@ inductive ProvedLeaf (E : Env) : String → String → String → Bool → Prop
   | pfv3 (sop : Spec.SOp) (ops : String) (x : Nat) (r : List Nat) (x' : Nat) (r' : List Nat) :
       (sop, ops) ∈ orderedOps → 2 ≤ r.length → E.get? "python_full_version" = some (relLit (x' :: r')) →
       ProvedLeaf E "python_full_version" ops (relLit (x :: r)) false
+  /-- `python_version in "X0.Y0 X1.Y1 …"` (two-component tokens), environment value `X'.Y'` -/
+  | pvIn (p0 : Nat × Nat) (rest : List (String × (Nat × Nat))) (x' y' : Nat) : (∀ q ∈ rest, SepRun q.1) →
+      E.get? "python_version" = some (relLit [x', y']) →
+      ProvedLeaf E "python_version" "in" (verList2 p0 rest) false
   /-- `python_version ~= "X.Y…"` (two or more components) -/
   | pvCompat (x : Nat) (r : List Nat) (x' : Nat) (r' : List Nat) : 1 ≤ r.length →
       E.get? "python_version" = some (relLit (x' :: r')) →
@@ -324,13 +343,11 @@ inductive ProvedLeaf (E : Env) : String → String → String → Bool → Prop
 that defines the variable with, for version variables, the text `X'.Y'…` of a final release -/
 inductive DomainLeaf (E : Env) : String → String → String → Bool → Prop
   | proved {n op v sw} : ProvedLeaf E n op v sw → DomainLeaf E n op v sw
-  /-- `python_version in "X.Y …"`, environment value `X'.Y'` (with a third component the wildcard reading
-  `X.Y.*` of the code differs from token equality) -/
-  | pvList (op : String) (x0 : Nat × Nat) (rest : List (String × (Nat × Nat))) (x' y' : Nat) :
-      op ∈ ["in", "not in"] → (∀ p ∈ rest, SepRun p.1) →
+  /-- `python_version not in "X0.Y0 X1.Y1 …"`, environment value `X'.Y'` (with a third component the wildcard
+  reading `X.Y.*` of the code differs from token equality) -/
+  | pvNotIn (p0 : Nat × Nat) (rest : List (String × (Nat × Nat))) (x' y' : Nat) : (∀ q ∈ rest, SepRun q.1) →
       E.get? "python_version" = some (relLit [x', y']) →
-      DomainLeaf E "python_version" op
-        (listLit (relLit [x0.1, x0.2]) (rest.map fun p => (p.1, relLit [p.2.1, p.2.2]))) false
+      DomainLeaf E "python_version" "not in" (verList2 p0 rest) false
   /-- `python_full_version in "X.Y.Z …"` -/
   | pfvList (op : String) (x0 : Nat × Nat × Nat) (rest : List (String × (Nat × Nat × Nat))) (x' : Nat)
       (r' : List Nat) : op ∈ ["in", "not in"] → (∀ p ∈ rest, SepRun p.1) →
@@ -359,6 +376,7 @@ theorem leaf_agree_partial (E : Env) (n op v : String) (sw : Bool) (h : ProvedLe
   | .pv sop ops x r x' r' hop hev => exact agree_pv E sop ops hop x r x' r' hev
   | .pfv2 sop ops x y x' r' hop hev => exact agree_pfv2 E sop ops hop x y x' r' hev
   | .pfv3 sop ops x r x' r' hop hr hev => exact agree_pfv3 E sop ops hop x r hr x' r' hev
+  | .pvIn p0 rest x' y' hs hev => exact agree_pv_in E p0 rest hs x' y' hev
   | .pvCompat x r x' r' hr hev => exact agree_pv_compat E x r hr x' r' hev
   | .pfvCompat x r x' r' hr hev => exact agree_pfv3_compat E x r hr x' r' hev
 
